@@ -13,6 +13,8 @@ import (
 
 	"github.com/paulmach/orb"
 	"github.com/paulmach/orb/geo"
+
+	"verifharness/internal/gen"
 )
 
 // R is the sphere radius the library documents (orb.EarthRadius, metres).
@@ -287,7 +289,35 @@ func spelling(verts []orb.Point, rot int, rev, closed bool) orb.Ring {
 	return r
 }
 
-func checkBox(b orb.Bound, extra [4][]float64, rot int, rev, closed bool) error {
+// ringMeasures lays the ring spelling out in the given memory layout (a fresh lay-out per
+// call), calls SignedArea and Area, and checks after each call that the whole backing
+// array (spare capacity included) is bit for bit what it was.
+func ringMeasures(r orb.Ring, mode string) (signed, area float64, err error) {
+	one := func(name string, f func(orb.Ring) float64) (float64, error) {
+		laid, gd := layOut(r, mode)
+		lr := laid.(orb.Ring)
+		v := f(lr)
+		if err := gd.check(name); err != nil {
+			return v, err
+		}
+		if len(lr) != len(r) {
+			return v, fmt.Errorf("harness: lay-out changed the ring length")
+		}
+		for i := range r {
+			if math.Float64bits(lr[i][0]) != math.Float64bits(r[i][0]) || math.Float64bits(lr[i][1]) != math.Float64bits(r[i][1]) {
+				return v, fmt.Errorf("%s wrote to its argument: vertex %d was %v, is %v", name, i, r[i], lr[i])
+			}
+		}
+		return v, nil
+	}
+	if signed, err = one("SignedArea", geo.SignedArea); err != nil {
+		return
+	}
+	area, err = one("Area(ring)", func(x orb.Ring) float64 { return geo.Area(x) })
+	return
+}
+
+func checkBox(b orb.Bound, extra [4][]float64, rot int, rev, closed bool, mode string) error {
 	want := boxClosedForm(b)
 	tol := relBox * want
 	if a := geo.Area(b); !(math.Abs(a-want) <= tol) {
@@ -295,17 +325,34 @@ func checkBox(b orb.Bound, extra [4][]float64, rot int, rev, closed bool) error 
 	}
 	verts := boxRing(b, extra)
 	r := spelling(verts, rot%len(verts), rev, closed)
-	if a := geo.Area(r.Clone()); !(math.Abs(a-want) <= tol) {
+	s, a, err := ringMeasures(r, mode)
+	if err != nil {
+		return fmt.Errorf("ring %v (layout %s): %v", r, mode, err)
+	}
+	if !(math.Abs(a-want) <= tol) {
 		return fmt.Errorf("Area(ring %v) = %v, closed form of the box %v (relative %g)", r, a, want, (a-want)/want)
 	}
-	if a := geo.Area(orb.Polygon{r.Clone()}); !(math.Abs(a-want) <= tol) {
-		return fmt.Errorf("Area(polygon of ring %v) = %v, closed form of the box %v", r, a, want)
+	pa, err := measured(orb.Polygon{r}, mode, "Area(polygon)", geo.Area)
+	if err != nil {
+		return fmt.Errorf("polygon of ring %v (layout %s): %v", r, mode, err)
+	}
+	if !(math.Abs(pa-want) <= tol) {
+		return fmt.Errorf("Area(polygon of ring %v) = %v, closed form of the box %v", r, pa, want)
+	}
+	// a polygon of the box and the same box again as a "hole", and the two as a multi-polygon:
+	// closed forms 0 and 2x; in the shared layout the two rings are adjacent windows of one buffer.
+	twice, err := measured(orb.MultiPolygon{{r}, {r}}, mode, "Area(multi-polygon)", geo.Area)
+	if err != nil {
+		return fmt.Errorf("multi-polygon of twice the ring %v (layout %s): %v", r, mode, err)
+	}
+	if !(math.Abs(twice-2*want) <= 2*tol) {
+		return fmt.Errorf("Area(multi-polygon of twice the ring %v, layout %s) = %v, want twice the closed form %v", r, mode, twice, 2*want)
 	}
 	ws := want // documented: counter-clockwise positive
 	if rev {
 		ws = -want
 	}
-	if s := geo.SignedArea(r.Clone()); !(math.Abs(s-ws) <= tol) {
+	if !(math.Abs(s-ws) <= tol) {
 		return fmt.Errorf("SignedArea(ring %v) = %v, want %v", r, s, ws)
 	}
 	return nil
@@ -327,7 +374,7 @@ func sumAbsDLon(verts []orb.Point) float64 {
 func ringTol(verts []orb.Point) float64 { return relRing*R*R*sumAbsDLon(verts) + 1e-9 }
 
 // checkRing: every rotation x reversal x closed/unclosed spelling of the vertex list.
-func checkRing(verts []orb.Point) error {
+func checkRing(verts []orb.Point, mode string) error {
 	n := len(verts)
 	tol := ringTol(verts)
 	base := spelling(verts, 0, false, false)
@@ -339,8 +386,10 @@ func checkRing(verts []orb.Point) error {
 		for k := 0; k < 4; k++ {
 			rev, closed := k&1 == 1, k&2 == 2
 			r := spelling(verts, rot, rev, closed)
-			s := geo.SignedArea(r.Clone())
-			a := geo.Area(r.Clone())
+			s, a, err := ringMeasures(r, mode)
+			if err != nil {
+				return fmt.Errorf("spelling rot=%d rev=%v closed=%v %v (layout %s): %v", rot, rev, closed, r, mode, err)
+			}
 			want := s0
 			if rev {
 				want = -s0
@@ -441,25 +490,35 @@ func segments(g orb.Geometry, f func(a, b orb.Point)) {
 	}
 }
 
-func checkGeom(g orb.Geometry) error {
+// checkGeom: g is the reference (plain deep copy, never handed to a measure); every
+// measure gets its own copy of g in the given memory layout.
+func checkGeom(g orb.Geometry, mode string) error {
+	g = gen.DeepCopy(g)
 	want, tol := modelArea(g)
-	if a := geo.Area(g); !(math.Abs(a-want) <= tol) {
-		return fmt.Errorf("Area = %v, composed from its rings (outer - holes, summed) %v (diff %g, tolerance %g)", a, want, a-want, tol)
+	a, err := measured(g, mode, "Area", geo.Area)
+	if err != nil {
+		return fmt.Errorf("layout %s: %v", mode, err)
 	}
-	// area of each polygon against its rings, each member against itself: covered by the recursion above.
+	if !(math.Abs(a-want) <= tol) {
+		return fmt.Errorf("Area = %v (layout %s), composed from its rings (outer - holes, summed) %v (diff %g, tolerance %g)", a, mode, want, a-want, tol)
+	}
 	var se, sh float64
 	segments(g, func(a, b orb.Point) {
 		se += geo.Distance(a, b)
 		sh += geo.DistanceHaversine(a, b)
 	})
-	if l := geo.Length(g); !(math.Abs(l-se) <= relLength*se) {
-		return fmt.Errorf("Length = %v, sum of segment distances %v", l, se)
-	}
-	if l := geo.LengthHaversine(g); !(math.Abs(l-sh) <= relLength*sh) {
-		return fmt.Errorf("LengthHaversine = %v, sum of segment haversine distances %v", l, sh)
-	}
-	if l := geo.LengthHaversign(g); !(math.Abs(l-sh) <= relLength*sh) {
-		return fmt.Errorf("LengthHaversign = %v, sum of segment haversine distances %v", l, sh)
+	for _, m := range []struct {
+		name string
+		f    func(orb.Geometry) float64
+		want float64
+	}{{"Length", geo.Length, se}, {"LengthHaversine", geo.LengthHaversine, sh}, {"LengthHaversign", geo.LengthHaversign, sh}} {
+		l, err := measured(g, mode, m.name, m.f)
+		if err != nil {
+			return fmt.Errorf("layout %s: %v", mode, err)
+		}
+		if !(math.Abs(l-m.want) <= relLength*m.want) {
+			return fmt.Errorf("%s = %v (layout %s), sum of segment distances %v", m.name, l, mode, m.want)
+		}
 	}
 	return nil
 }
